@@ -39,6 +39,10 @@ pub enum Case {
     /// a sequence of front-end calls on one driver instance and one chip; after every call that names a frequency
     /// the chip must be tuned to it. ops: see `FREQ_OPS`
     FreqSeq { chip: String, ops: Vec<u8> },
+    /// a sequence of front-end calls on one driver instance and one chip; after every prepare_for_tx the PA registers
+    /// hold what a fresh driver programs for that request. ops: see `POWER_OPS`
+    #[serde(rename = "PowerFrontSeq")]
+    PowerFrontSeq { chip: String, ops: Vec<u8> },
     Timeout { chip: String, symbols: u16 },
     Adapter { chip: String, sf: usize, bw: usize, ms: u32 },
     Status126 { raw: [u8; 3] },
@@ -439,6 +443,90 @@ pub fn eval_freq_seq(chip: &str, ops: &[u8]) -> Vec<(String, String)> {
     }
 }
 
+/// Front-end operations of the power sequences.
+pub const POWER_OPS: [&str; 10] =
+    ["prepare_for_tx(10)", "prepare_for_tx(14)", "prepare_for_tx(20)", "continuous_wave(14)", "continuous_wave(20)", "sleep(cold)", "sleep(warm)", "init", "enter_standby", "tx"];
+
+fn pa_state(chip: &str, e: &Env) -> Vec<u8> {
+    use crate::chips::{Sx126xChip, Sx127xChip};
+    if is126(chip) {
+        e.with_chip::<Sx126xChip, _>(|c| {
+            let mut v = c.pa_config.to_vec();
+            v.extend_from_slice(&c.tx_params);
+            v
+        })
+    } else {
+        let dac = if chip.starts_with("sx1272") { 0x5A } else { 0x4D };
+        e.with_chip::<Sx127xChip, _>(|c| vec![c.regs[0x09], c.regs[dac]])
+    }
+}
+
+/// Whatever the driver object (or the chip) remembers from earlier calls - other power levels, a continuous wave, sleeps,
+/// a re-initialisation -, after prepare_for_tx(p) the PA registers hold what a fresh driver on a fresh chip programs for p
+/// (which the single-request sweep decodes with the datasheet tables).
+pub fn eval_power_front_seq(chip: &str, ops: &[u8]) -> Vec<(String, String)> {
+    use crate::chips::{Sx126xChip, Sx127xChip};
+    use lora_phy::LoRa;
+    let hz = 868_100_000u32;
+    let mk_env = || if is126(chip) { Env::new(Box::new(Sx126xChip::new())) } else { Env::new(Box::new(Sx127xChip::new(chip.starts_with("sx1272")))) };
+    let env = mk_env();
+    let power_of = |op: u8| match op {
+        0 => 10,
+        1 | 3 => 14,
+        _ => 20,
+    };
+    // reference: one prepare_for_tx(p) on a fresh driver and chip
+    let fresh = |p: i32| -> Option<Vec<u8>> {
+        let e = mk_env();
+        let ok = with_chip!(chip, &e, |r| {
+            let Some(Ok(mut l)) = drive(LoRa::new(r, true, e.delay())) else { return None };
+            let mp = l.create_modulation_params(lora_modulation::SpreadingFactor::_7, lora_modulation::Bandwidth::_125KHz, CodingRate::_4_5, hz).ok()?;
+            let mut txp = l.create_tx_packet_params(8, false, true, false, &mp).ok()?;
+            matches!(drive(l.prepare_for_tx(&mp, &mut txp, p, &[1, 2, 3])), Some(Ok(())))
+        });
+        if ok { Some(pa_state(chip, &e)) } else { None }
+    };
+    let r = catch(|| -> Vec<(String, String)> {
+        let mut v = vec![];
+        with_chip!(chip, &env, |r| {
+            let Some(Ok(mut l)) = drive(LoRa::new(r, true, env.delay())) else { return v };
+            let Ok(mp) = l.create_modulation_params(lora_modulation::SpreadingFactor::_7, lora_modulation::Bandwidth::_125KHz, CodingRate::_4_5, hz) else { return v };
+            for (i, &op) in ops.iter().enumerate() {
+                let Ok(mut txp) = l.create_tx_packet_params(8, false, true, false, &mp) else { return v };
+                let res: Option<Result<(), lora_phy::mod_params::RadioError>> = match op {
+                    0..=2 => drive(l.prepare_for_tx(&mp, &mut txp, power_of(op), &[1, 2, 3])),
+                    3 | 4 => drive(l.continuous_wave(&mp, power_of(op))),
+                    5 => drive(l.sleep(false)),
+                    6 => drive(l.sleep(true)),
+                    7 => drive(l.init()),
+                    8 => drive(l.enter_standby()),
+                    _ => drive(l.tx()),
+                };
+                if !matches!(res, Some(Ok(()))) {
+                    return v;
+                }
+                if op <= 2 && i > 0 {
+                    let got = pa_state(chip, &env);
+                    if let Some(want) = fresh(power_of(op))
+                        && got != want
+                    {
+                        v.push((
+                            format!("C17|power-front-seq|{chip}|pa-registers-differ-from-a-fresh-request"),
+                            format!("{chip}: after {:?} the PA registers are {got:02x?}; a fresh driver programs {want:02x?} for step {i} ({})", ops.iter().map(|o| POWER_OPS[*o as usize]).collect::<Vec<_>>(), POWER_OPS[op as usize]),
+                        ));
+                        return v;
+                    }
+                }
+            }
+            v
+        })
+    });
+    match r {
+        Ok(v) => v,
+        Err(p) => vec![(format!("C17|power-front-seq|{chip}|panic|{}", panic_site(&p)), p)],
+    }
+}
+
 // ---------------------------------------------------------------- (c) symbol timeout
 
 pub fn eval_timeout(chip: &str, symbols: u16, env: &Env) -> Vec<(String, String)> {
@@ -627,6 +715,7 @@ pub fn eval(c: &Case) -> Vec<(String, String)> {
         Case::PowerSeq { chip, first, second, hz } => eval_power_seq(chip, *first, *second, *hz),
         Case::PowerRetry { chip, first, second, fault } => eval_power_retry(chip, *first, *second, *fault).1,
         Case::FreqSeq { chip, ops } => eval_freq_seq(chip, ops),
+        Case::PowerFrontSeq { chip, ops } => eval_power_front_seq(chip, ops),
         Case::Timeout { chip, symbols } => eval_timeout(chip, *symbols, &env),
         Case::Adapter { chip, sf, bw, ms } => eval_adapter(chip, *sf, *bw, *ms),
         Case::Status126 { raw } => {
@@ -776,6 +865,36 @@ pub fn run(tier: Tier, replay: Option<&str>) {
             }
         }
     }
+    // (b3) power requests through the front-end in sequences of up to four calls on one driver instance
+    {
+        let n = POWER_OPS.len() as u32;
+        for chip in ["sx1261", "sx1262", "stm32wl-lp", "stm32wl-hp", "sx1276-rfo", "sx1276-boost", "sx1272-rfo", "sx1272-boost"] {
+            for depth in [2u32, 3, 4] {
+                let total = n.pow(depth);
+                let found: Vec<(Vec<u8>, Vec<(String, String)>)> = (0..total)
+                    .into_par_iter()
+                    .filter_map(|k| {
+                        let ops: Vec<u8> = (0..depth).map(|i| ((k / n.pow(i)) % n) as u8).collect();
+                        // judged steps are prepare_for_tx after the first step; the last step is one of them
+                        if *ops.last().unwrap() > 2 {
+                            return None;
+                        }
+                        // (the SX1272 variant has no continuous-wave mode: `todo!()` in the driver, outside this property)
+                        if chip.starts_with("sx1272") && ops.iter().any(|o| *o == 3 || *o == 4) {
+                            return None;
+                        }
+                        let v = eval_power_front_seq(chip, &ops);
+                        if v.is_empty() { None } else { Some((ops, v)) }
+                    })
+                    .collect();
+                ctx.tick(total as u64 * 3 / 10);
+                nontrivial.fetch_add(total as u64 * 3 / 10, Ordering::Relaxed);
+                for (ops, v) in found {
+                    rec(Case::PowerFrontSeq { chip: chip.into(), ops }, v);
+                }
+            }
+        }
+    }
     // (c) symbol timeouts 0..=65535
     for chip in ["sx1262", "sx1276-rfo", "sx1272-rfo"] {
         (0..32u32).into_par_iter().for_each(|blk| {
@@ -875,7 +994,7 @@ pub fn run(tier: Tier, replay: Option<&str>) {
     let coverage = json!({
         "evaluations": ctx.evals(),
         "distinct_nontrivial": nontrivial.load(Ordering::Relaxed),
-        "rule": "(a) set_channel on SX126x and SX127x for every 100 Hz of the LoRaWAN bands plus a 1 kHz stride over 137-1020 MHz (thorough: every 1 Hz of 137-1020 MHz), PLL word decoded with the datasheet formula; every sequence of four front-end calls over {prepare_for_tx / prepare_for_rx / rx_switch_channel / listen on two frequencies, start_rx, sleep warm / cold, init, tx} on one driver instance (SX1262, SX1276 chip models): after every call that names a frequency the chip is tuned to it; (b) set_tx_power_and_ramp_time for every request -128..127 and i32 extremes x {SX1261, SX1262, STM32WL LP/HP, SX1276 RFO/BOOST, SX1272 RFO/BOOST} x 3 bands, PA registers decoded with the datasheet tables, and (SX126x) requests -20..30 also through LoRa::prepare_for_tx and LoRa::continuous_wave; pairs of requests in a row on one register-file chip model (14 first x 36 second values per chip), the second one decoded; a request during which one environment call (SPI transfer / BUSY wait / RF switch, every position) fails, retried on the same driver instance: the chip then holds what a fresh driver programs; (c) every symbol timeout 0..65535 through do_rx, decoded mantissa/exponent (SX126x) or 10-bit value (SX127x); (d) every (SF,BW) x margin 0..1000 ms through LorawanRadio::setup_rx + rx_single; (e) every raw SX126x (RssiPkt, SnrPkt[, SignalRssi]) value and every SX127x (SNR, RSSI, band, chip) register value through get_rx_packet_status, and the SX127x conversion over carrier frequencies on both sides of every band edge and of the 525 MHz LF/HF line. Every tuple is a distinct input",
+        "rule": "(a) set_channel on SX126x and SX127x for every 100 Hz of the LoRaWAN bands plus a 1 kHz stride over 137-1020 MHz (thorough: every 1 Hz of 137-1020 MHz), PLL word decoded with the datasheet formula; every sequence of four front-end calls over {prepare_for_tx / prepare_for_rx / rx_switch_channel / listen on two frequencies, start_rx, sleep warm / cold, init, tx} on one driver instance (SX1262, SX1276 chip models): after every call that names a frequency the chip is tuned to it; (b) set_tx_power_and_ramp_time for every request -128..127 and i32 extremes x {SX1261, SX1262, STM32WL LP/HP, SX1276 RFO/BOOST, SX1272 RFO/BOOST} x 3 bands, PA registers decoded with the datasheet tables, and (SX126x) requests -20..30 also through LoRa::prepare_for_tx and LoRa::continuous_wave; pairs of requests in a row on one register-file chip model (14 first x 36 second values per chip), the second one decoded; a request during which one environment call (SPI transfer / BUSY wait / RF switch, every position) fails, retried on the same driver instance: the chip then holds what a fresh driver programs; every sequence of two to four front-end calls over {prepare_for_tx at 10 / 14 / 20 dBm, continuous_wave at 14 / 20 dBm, sleep cold / warm, init, enter_standby, tx} ending in a prepare_for_tx, on one driver instance and chip model of all eight variants: the PA registers then hold what a fresh driver programs for that request; (c) every symbol timeout 0..65535 through do_rx, decoded mantissa/exponent (SX126x) or 10-bit value (SX127x); (d) every (SF,BW) x margin 0..1000 ms through LorawanRadio::setup_rx + rx_single; (e) every raw SX126x (RssiPkt, SnrPkt[, SignalRssi]) value and every SX127x (SNR, RSSI, band, chip) register value through get_rx_packet_status, and the SX127x conversion over carrier frequencies on both sides of every band edge and of the 525 MHz LF/HF line. Every tuple is a distinct input",
         "samples": [
             serde_json::to_value(Case::Freq { chip: "sx1262".into(), hz: 868_100_000 }).unwrap(),
             serde_json::to_value(Case::Power { chip: "sx1276-boost".into(), request: 20, hz: 868_100_000, via: 0 }).unwrap(),
